@@ -504,6 +504,10 @@ def execute(case, stats):
                         continue
                     if xdt.kind == "i" and any(np.any(v != np.round(v)) for v in xnew):
                         continue
+                    # representable in x's dtype (the statement's precondition): no integer overflow, no float32 overflow
+                    lim = float(np.iinfo(xdt).max) if xdt.kind == "i" else float(np.finfo(xdt).max) * 1e-3
+                    if any(np.any(np.abs(v) > lim) for v in xnew):
+                        continue
                 # snapshots for the differential clause and for "y untouched"
                 try:
                     xc, yc = _copy.deepcopy(x), _copy.deepcopy(y)
